@@ -7,7 +7,11 @@ from cm_colors.core.conversions import (
 )
 from cm_colors.core.color_parser import parse_color_to_rgb
 
-from cm_colors.core.contrast import calculate_contrast_ratio, get_wcag_level
+from cm_colors.core.contrast import (
+    calculate_contrast_ratio,
+    calculate_relative_luminance,
+    get_wcag_level,
+)
 from cm_colors.core.color_metrics import calculate_delta_e_2000
 
 from cm_colors.core.colors import Color
@@ -39,6 +43,12 @@ def binary_search_lightness(
         # Determine search direction based on background brightness
         bg_l, _, _ = rgb_to_oklch_safe(bg_rgb)
         search_up = bg_l < 0.5  # Lighten text on dark bg, darken on light bg
+        # Move the text away from the background: text that is already lighter
+        # than its background gains contrast by getting lighter, and vice versa
+        text_lum = calculate_relative_luminance(text_rgb)
+        bg_lum = calculate_relative_luminance(bg_rgb)
+        if text_lum != bg_lum:
+            search_up = text_lum > bg_lum
 
         # Binary search bounds
         low = l if search_up else 0.0
